@@ -184,6 +184,20 @@ def oracle(ctx):
         shutil.rmtree(d, ignore_errors=True)
     ctx.counters['nontrivial'] = nt
     ctx.sample({'template': cases[m][0]['src'], 'expected': cases[m][1]})
+    # every ${…} occurrence is evaluated on its own, also when the same expression text stands several times in one text
+    from chameleon import PageTextTemplate
+    REP = [('${next(n)}. ${next(n)}. ${next(n)}.', lambda: {'n': iter([1, 2, 3])}, '1. 2. 3.'),
+           ('To: ${q.pop(0)}\nCc: ${q.pop(0)}\n${q.pop(0)}!', lambda: {'q': ['a@x', 'b@x', '<c&d>']}, 'To: a@x\nCc: b@x\n<c&d>!'),
+           ('${c()}${c()}$${c()}${c()}', lambda: {'c': iter('wxyz').__next__}, 'wx${c()}y')]
+    for src, mk, want in REP:
+        ctx.count('evaluations')
+        try:
+            got = PageTextTemplate(src)(**mk())
+        except Exception as e:
+            got = {'exc': type(e).__name__, 'msg': str(e).split('\n')[0][:100]}
+        if got != want:
+            ctx.violation('text mode: each ${expr} is replaced by the value of that occurrence of expr', {'src': src, 'kwargs': 'iterators / queues'},
+                          expected=want, actual=got)
     # D-20b: entities inside an expression are decoded in text mode too
     r = pipeline.run_impl(dict(D20B, vars=[], objs=[]))
     if r.get('out') != 'a &amp; b':
